@@ -74,6 +74,7 @@ def prior_fit(case, m, out, data):
     if case.get("prefit") is not None:
         r = attempt(lambda: m.fit(data("prefit")) and None)
         out["prefit_err"] = r["err"] if isinstance(r, dict) else None
+        attempt(lambda: m.transform(data("X2")) is None)     # ... and was used for a transform in that earlier life
 
 
 def prior_transforms(case, m, conv):
